@@ -7,11 +7,14 @@ open IrVerif.Sort
 #print axioms C12_kahn_cycle_iff
 #print axioms C12_kahn_stable
 #print axioms C12_relink
+#print axioms C12_relink_refines
 #print axioms C12_perm
 #print axioms C12_respects
 #print axioms C12_cycle_iff
 #print axioms C12_cycle_lifted
+#print axioms C12_cycle_iff_lifted
 #print axioms C12_cycle_no_change
+#print axioms C12_shared_raises
 #print axioms C12_fixpoint_graph
 #print axioms C12_fixpoint
 #print axioms C12_deterministic
